@@ -94,6 +94,10 @@ structure Toggles where
   /-- F14: a pending backward projection stays pending until it is performed, whatever the epoch
       (the code only honours a pending flag stamped with the current epoch). -/
   f14 : Bool := false
+  /-- F16: a `CyclicError` returned by the repair of a callee inside `check_callee` means "recompute"
+      (the code discards it with `let _ =` and compares fingerprints of a callee that is still
+      computing, so a node that has just been found to lie on a cycle is cleaned with its old value). -/
+  f16 : Bool := false
   /-- not a finding: the code walks transitive-firewall-callee sets and backward-projection sets in
       hash-set order; the model walks them in ascending key order, or descending with this switch -/
   desc : Bool := false
@@ -401,7 +405,9 @@ def checkCallee (t : Toggles) (p : Program) : Nat → Key → Kind → Key → L
     if !edgeDirty && !pedantic && kindK != .projection then return .noNeed
     let kc ← storedKind callee
     if kc != .input then
-      let _ ← queryFor t p fuel callee (.query k false pedantic)
+      match (← queryFor t p fuel callee (.query k false pedantic)) with
+      | .cyclic => if t.f16 then return .recompute
+      | _ => pure ()
     let cn ← nodeInfoUnchecked callee
     match lookup callee obs with
     | none =>
